@@ -6,6 +6,8 @@
 (*  * one entity T(id, a, b) whose two non-key attributes have a *kind* each (chosen in Init from   *)
 (*    the constant sets KA, KB, so that one TLC run covers several entity declarations):          *)
 (*      "opt"      ordinary attribute, takes part in optimistic checks                             *)
+(*      "null"     Optional(int), NULL in every initial row: like "opt", the value 0 stands for NULL *)
+(*                 (the criteria must say IS NULL for it); writes store non-NULL values            *)
 (*      "nonopt"   Required(int, optimistic=False) or a float attribute (RealConverter.optimistic  *)
 (*                 = False): read bit is set, re-delivery is compared, but it never appears in the *)
 (*                 UPDATE's WHERE                                                                   *)
@@ -98,12 +100,13 @@ VARIABLES kind,                 \* kind[x] of the attributes (fixed in the initi
           preHolder, waiting,   \* owner of pre_transaction_lock blocked on transaction_lock / sessions blocked on pre_transaction_lock
           mode, imm, touched, pc, result, pending,  \* imm = cache.immediate; touched = the session's cache exists
           status, dbval, val, rbits, wbits, notLoaded, forUpdate, collItems, collFull,
+          oldReads,             \* ghost: read bits of an object that were already set when it was last flushed (UPDATE)
           seen, collSeen, written, locked, applied,
           ev
 
 Kind == kind
 Tracked(x) == Kind[x] # "volatile"            \* has a bit in _bits_except_volatile_
-Optim(x)   == Kind[x] \in {"opt", "link"}     \* appears in optimistic criteria when read
+Optim(x)   == Kind[x] \in {"opt", "null", "link"}     \* appears in optimistic criteria when read
 LinkAttrs  == {x \in Attrs : Kind[x] = "link"}
 HasLink    == LinkAttrs # {}
 LinkA      == CHOOSE x \in LinkAttrs : TRUE
@@ -112,7 +115,7 @@ InitRowFor(k) == [o \in Objs |-> [x \in Attrs |-> IF k[x] = "link" /\ o = 1 THEN
 
 dbvars   == <<row, exists, txrow, txexists, lockHolder, preHolder, waiting>>
 sessvars == <<kind, mode, imm, touched, pc, result, pending, status, dbval, val, rbits, wbits, notLoaded, forUpdate, collItems, collFull>>
-ghosts   == <<seen, collSeen, written, locked, applied>>
+ghosts   == <<oldReads, seen, collSeen, written, locked, applied>>
 vars     == <<dbvars, sessvars, ghosts, ev>>
 
 NoOp == [k |-> "-", o |-> 0, x |-> "-", m |-> "-"]
@@ -166,7 +169,7 @@ NeedsLock(s, S, op) ==
 OpEnabled(S, op) ==
     CASE op.k \in {"R", "W", "D", "GFU"} -> ~Gone(S, op.o)   \* the program does not touch what it deleted itself
       [] op.k \in {"RC", "LC"}          -> HasLink
-      [] op.k = "QR"                    -> Kind[op.x] # "link"
+      [] op.k = "QR"                    -> Kind[op.x] \notin {"link", "null"}   \* (NULL > n filters the row out)
       [] OTHER                          -> TRUE
 
 (* ----------------------------------------- flush --------------------------------------------- *)
@@ -266,6 +269,7 @@ Init ==
     /\ val = [s \in Sessions |-> BlankSess.v] /\ rbits = [s \in Sessions |-> BlankSess.rb]
     /\ wbits = [s \in Sessions |-> BlankSess.wb] /\ notLoaded = [s \in Sessions |-> BlankSess.nl] /\ forUpdate = [s \in Sessions |-> {}]
     /\ collItems = [s \in Sessions |-> {}] /\ collFull = [s \in Sessions |-> FALSE]
+    /\ oldReads = [s \in Sessions |-> [o \in Objs |-> {}]]
     /\ seen = [s \in Sessions |-> [o \in Objs |-> [x \in Attrs |-> Unseen]]]
     /\ collSeen = [s \in Sessions |-> [known |-> FALSE, set |-> {}]]
     /\ written = [s \in Sessions |-> [o \in Objs |-> {}]]
@@ -286,6 +290,7 @@ EndSession(s, res, D, commit, hold) ==
     /\ result' = [result EXCEPT ![s] = res]
     /\ SetSess(s, BlankSess)
     /\ seen' = [seen EXCEPT ![s] = [o \in Objs |-> [x \in Attrs |-> Unseen]]]
+    /\ oldReads' = [oldReads EXCEPT ![s] = [o \in Objs |-> {}]]
     /\ collSeen' = [collSeen EXCEPT ![s] = [known |-> FALSE, set |-> {}]]
     /\ written' = [written EXCEPT ![s] = [o \in Objs |-> {}]]
     /\ locked' = [locked EXCEPT ![s] = {}]
@@ -323,6 +328,8 @@ Exec(s, op, how) ==
                    [] op.k = "RC" -> S2.ci
                    [] OTHER -> {}} :
     \E mine \in {{r \in applied : r.s = s}} :
+    \E newOld \in {IF fl THEN [o \in Objs |-> IF o \in ModObjs(S0) THEN oldReads[s][o] \cup S0.rb[o] ELSE oldReads[s][o]]
+                    ELSE oldReads[s]} :
     \E newLocked \in {IF op.k \in {"GFU", "QFU"} \/ mode[s] = "ser" THEN live ELSE {}} :
     /\ ev' = [s |-> s, k |-> op.k, o |-> op.o, x |-> op.x, m |-> op.m, step |-> how, out |-> out,
               why |-> IF out = "unrepeatable_error" THEN (IF gone THEN "object_disappeared" ELSE Why(S1, T, D1)) ELSE "-", retv |-> retv, rets |-> rets]
@@ -347,6 +354,7 @@ Exec(s, op, how) ==
        THEN \* commit() in the middle of the db_session: the transaction ends, the session and its cache go on
             /\ SetSess(s, S3)
             /\ UNCHANGED <<result, seen, collSeen, written>>
+            /\ oldReads' = [oldReads EXCEPT ![s] = newOld]
             /\ IF hold THEN /\ row' = D1.row /\ exists' = D1.ex /\ txrow' = D1.row /\ txexists' = D1.ex
                        ELSE UNCHANGED <<row, exists, txrow, txexists>>
             /\ lockHolder' = IF hold THEN 0 ELSE lockHolder
@@ -357,6 +365,7 @@ Exec(s, op, how) ==
             /\ lockHolder' = IF hold THEN s ELSE lockHolder
             /\ IF hold THEN txrow' = D1.row /\ txexists' = D1.ex ELSE UNCHANGED <<txrow, txexists>>
             /\ applied' = applied \cup recs
+            /\ oldReads' = [oldReads EXCEPT ![s] = newOld]
             /\ seen' = [seen EXCEPT ![s] =
                           IF out # "ok" THEN @
                           ELSE IF op.k = "R" THEN [@ EXCEPT ![op.o][op.x] = IF @ = Unseen THEN retv ELSE @]
